@@ -173,20 +173,34 @@ def iterDocuments (now : Int) (c : Coll) (filter : Val) : R (Coll × List Val) :
 
 /-! ### insert (collection.py:488-548) -/
 
+/-- the look-up value of one indexed key: `{'$eq': value}` — the value is DATA, also when it is
+    an embedded document whose keys start with `$` -/
+def eqCond (v : Val) : Val := .doc [("$eq", v)]
+
+/-- `find_kwargs` of `_ensure_uniques`: `{key: {'$eq': get_value_by_dot(new_data, key)}}`, null
+    for a key the document lacks (KeyError) -/
 def valuesFor (keys : List (String × Val)) (d : Val) : R Fields :=
   keys.foldlM (fun acc kv =>
     match getByDot d kv.1 with
-    | .ok v => .ok (dset kv.1 v acc)
-    | .error .keyErr => .ok (dset kv.1 .null acc)
+    | .ok v => .ok (dset kv.1 (eqCond v) acc)
+    | .error .keyErr => .ok (dset kv.1 (eqCond .null) acc)
     | .error e => .error e) []
 
-/-- `_ensure_uniques(new_data)`; the document is already in the store -/
+/-- `value['$eq'] is None` -/
+def isNullCond (kv : String × Val) : Bool :=
+  match kv.2 with
+  | .doc [(_, .null)] => true
+  | _ => false
+
+/-- `_ensure_uniques(new_data)`; the document is already in the store.  Per unique index the
+    look-up is `{key: {'$eq': value}, …}` (inside `{'$and': [partialFilterExpression, …]}` for a
+    partial index): each indexed value is compared as data by the `$eq` operator. -/
 def ensureUniques (now : Int) (c : Coll) (newData : Val) : R Coll :=
   c.indexes.foldlM (fun c ix =>
     if !ix.unique then pure c
     else do
       let kwargs ← valuesFor ix.keys newData
-      let skip := ix.sparse && kwargs.all (fun kv => match kv.2 with | .null => true | _ => false)
+      let skip := ix.sparse && kwargs.all isNullCond
       if skip then pure c
       else do
         let filter := match ix.partialFilter with
